@@ -309,6 +309,7 @@ class Ctx:
         self.violations = []          # oracle failures on the real code
         self.notes = []
         self.extra = {}
+        self._per_key = {}
 
     @property
     def quick(self):
@@ -338,8 +339,15 @@ class Ctx:
     def violation(self, key, what, replay):
         """Oracle failure on the real code. `key` identifies the failing input/call site
         (matched against known_findings.json); `replay` is a JSON-able case."""
-        if len(self.violations) < 200:
+        # per-key cap (a frequent class, e.g. a known finding, must not crowd out other
+        # violations) plus a generous global cap
+        n = self._per_key.get(key, 0)
+        self._per_key[key] = n + 1
+        if n < 5 and len(self.violations) < 1000:
             self.violations.append({'key': key, 'what': what, 'replay': replay})
+        else:
+            self.extra['violations_dropped_by_cap'] = \
+                self.extra.get('violations_dropped_by_cap', 0) + 1
 
     def elapsed(self):
         return time.time() - self.t0
@@ -449,6 +457,21 @@ def _run(ctx, module, args):
     except DriverBroken as e:
         obligations.append(Obligation('correspondence(model vs /repo)', 'correspondence', False,
                                       'driver broken: {}'.format(e)))
+    # model branches the harness declares it must exercise (module.EXPECTED_BRANCHES: list or
+    # callable(ctx)); an unhit one is reported always and is a broken obligation in the
+    # thorough tier (silent loss of generator coverage)
+    exp = getattr(module, 'EXPECTED_BRANCHES', None)
+    if exp is not None:
+        try:
+            exp = list(exp(ctx)) if callable(exp) else list(exp)
+            unhit = sorted(b for b in exp if not ctx.branches.get(b))
+            ctx.extra['expected_model_branches'] = len(exp)
+            ctx.extra['unhit_model_branches'] = unhit
+            if ctx.tier == 'thorough':
+                obligations.append(Obligation('coverage(every expected model branch hit)',
+                                              'coverage', not unhit, ', '.join(unhit[:20])))
+        except Exception as e:  # noqa
+            ctx.notes.append('EXPECTED_BRANCHES failed: {}'.format(e))
     broken = [o for o in obligations if not o.ok]
     # 4. a broken obligation is not by itself a violation: search the real code
     searched = False
